@@ -25,6 +25,8 @@ func init() {
 }
 
 func runC02(c *core.Ctx) {
+	c.Rule("ALIASMAP", "a Typecheck method does not modify the name mapping a child returned")
+	checkChildMappingUntouched(c, "ALIASMAP")
 	c.Rule("CTEFRESH", "every reference to a common table expression gets fresh unique column names")
 	checkCTEFreshNames(c, "CTEFRESH")
 	c.Rule("MAPORDER", "no planner result depends on Go's map iteration order")
